@@ -266,7 +266,7 @@ func (d *Decls) WF(x Term, t types.Type, top Term, depth int) Term {
 	case *types.Signature:
 		return Ge(x, Zero)
 	case *types.Interface, *types.TypeParam:
-		return And(Ge(ITy(x), Zero), Ge(IVal(x), Zero), Implies(Eq(ITy(x), Zero), Eq(IVal(x), Zero)))
+		return And(Ge(ITy(x), Zero), Implies(Eq(ITy(x), Zero), Eq(IVal(x), Zero)))
 	case *types.Slice:
 		return And(Ge(SlBase(x), Zero), Lt(SlBase(x), top), Ge(SlOff(x), Zero), Ge(SlLen(x), Zero),
 			Le(SlLen(x), SlCap(x)), Le(SlCap(x), mk(SInt, "4611686018427387904")),
